@@ -185,6 +185,9 @@ func load(repo string, overlay map[string][]byte, tags string) (*A, error) {
 	if tags != "" {
 		cfg.BuildFlags = []string{"-tags=" + tags}
 	}
+	if ga := os.Getenv("VERIF_GOARCH"); ga != "" {
+		cfg.Env = append(cfg.Env, "GOARCH="+ga)
+	}
 	pkgs, err := packages.Load(cfg, "./...")
 	if err != nil {
 		return nil, err
